@@ -944,7 +944,7 @@ func run(c *lib.Ctx) {
 		}
 		return
 	}
-	total := c.N(26000, 2000000)
+	total := c.N(26000, 1000000)
 	// every shard visits shapes round-robin starting at its own index so that 12 shapes are
 	// covered whatever the shard count is
 	perShape := total / 3
